@@ -218,7 +218,9 @@ CHECKS = {
        "sample through real files and RasterFuse: band lists / error kind equal to the model's, plus soundness predicates.",
   note="Known finding D12 (open, with a checked witness theorem): all-zero reference wavelengths bypass the tolerance test "
        "(numpy any()). Wavelengths are dyadic rationals in the correspondence run; tolerance = exact rational of the double 0.1. "
-       "",
+       "Modelled domain: wavelengths are positive or absent; a *source* wavelength of exactly 0.0 (division by zero: the code gets inf "
+       "for a non-zero reference wavelength and then refuses the match, the model treats the distance as undefined) is outside the "
+       "model and the theorems assume positive source wavelengths; the correspondence run generates none.",
   tech="Lean 4 proof (loop invariant for the greedy matcher, list/nodup/sublist reasoning) + differential run", ref='7 C15'),
  'C16': dict(
   text="Proof (Lean 4): the repaired covers_bounds predicate accepts iff the source footprint is contained in the reference "
